@@ -26,11 +26,15 @@ OPT_PASSES = ['-enable-new-pm=0', '-internalize', '-internalize-public-api-list=
 def sh(cmd, timeout=None, **kw):
     return subprocess.run(cmd, stdout=subprocess.PIPE, stderr=subprocess.PIPE, text=True, timeout=timeout, **kw)
 
+import threading
+HEAVY = threading.Semaphore(int(os.environ.get('VERIF_HEAVY_JOBS', '3')))
+
 def defs(d):
-    return ['-D%s=%s' % (k, v) if v is not None else '-D%s' % k for k, v in sorted(d.items())]
+    # keys starting with '_' are meta parameters of the query (memory limit, heavy flag), not preprocessor defines
+    return ['-D%s=%s' % (k, v) if v is not None else '-D%s' % k for k, v in sorted(d.items()) if not k.startswith('_')]
 
 def cfgname(d):
-    return ','.join('%s=%s' % (k, v) if v is not None else k for k, v in sorted(d.items())) or 'default'
+    return ','.join('%s=%s' % (k, v) if v is not None else k for k, v in sorted(d.items()) if not k.startswith('_')) or 'default'
 
 class Ctx:
     def __init__(self, pid, tier, keep=False, verbose=False):
@@ -89,10 +93,10 @@ def build_native(ctx, h, cfg, tag):
     if r.returncode != 0: return None, 'native twin build failed: ' + r.stderr[-2000:]
     return base + '.native', None
 
-def run_engine(ctx, bc, out_json, time_limit, inputs=None, extra=()):
+def run_engine(ctx, bc, out_json, time_limit, inputs=None, extra=(), mem_gb=None):
     cmd = [ENGINE, bc, '--json', out_json, '--time-limit', str(time_limit)] + list(extra)
     if inputs is not None: cmd += ['--inputs', inputs]
-    mem_kb = int(os.environ.get('VERIF_MEM_GB', '12')) * 1024 * 1024
+    mem_kb = int(mem_gb or os.environ.get('VERIF_MEM_GB', '10')) * 1024 * 1024
     t0 = time.time()
     try:
         r = subprocess.run(['bash', '-c', 'ulimit -v %d; exec "$@"' % mem_kb, 'x'] + cmd, stdout=subprocess.PIPE, stderr=subprocess.PIPE, text=True, timeout=time_limit + 60)
@@ -204,7 +208,9 @@ def main():
             bc, err = build_query(ctx, h, cfg, tag)
             if bc is None: return item, tag, {'rc': 2, 'stdout': 'VSYMEX-INCONCLUSIVE ' + err, 'json': None, 'wall_s': 0}
             tl = h.get('time_limit', {}).get(tier, 600 if tier == 'quick' else 3000)
-            res = run_engine(ctx, bc, bc + '.json', tl)
+            if cfg.get('_heavy'):
+                with HEAVY: res = run_engine(ctx, bc, bc + '.json', cfg.get('_time', tl), mem_gb=cfg.get('_mem_gb'))
+            else: res = run_engine(ctx, bc, bc + '.json', cfg.get('_time', tl), mem_gb=cfg.get('_mem_gb'))
             if not ctx.keep and role != 'main':
                 try: os.remove(bc)
                 except OSError: pass
